@@ -177,7 +177,7 @@ PPL::Grid::limited_congruence_extrapolation_assign(const Grid& y,
   const dimension_type cgs_num_rows = cgs.num_rows();
   // If `cgs' is empty (of rows), fall back to ordinary widening.
   if (cgs_num_rows == 0) {
-    x.widening_assign(y, tp);
+    x.congruence_widening_assign(y, tp);
     return;
   }
 
